@@ -258,6 +258,9 @@ func evaluate(c scase, verbose bool) []finding {
 		defer func() { drv.CallTimeout = saved }()
 	}
 	run := func(variant string, pre map[party.ID]*ecdsa.PreSignature) (*sess.Outcome, *keymat.Fail) {
+		// in the "reversed" variant every party also lists the signers with itself first (each party another
+		// order of the same set); the in-order variant passes one common sorted list
+		sess.OwnFirst = c.Rev
 		sp := ks.SignSpec(variant, signers, msg, pre)
 		o := keymat.Run(sp, *vkit.Seed, "c01|"+c.key()+"|"+variant, c.Rev)
 		if verbose {
